@@ -1718,11 +1718,23 @@ func (tr *FnTrans) havocPointee(st *BState, site *Site, cc *ssa.CallCommon, name
 		st.heap = tr.newRoot()
 		return
 	}
-	if al, ok := pv.(*ssa.Alloc); ok {
-		// the destination is a local variable: only its own cells change (objects the callee
-		// allocates and links from it are new memory)
-		if av, ok := tr.vals[al]; ok {
-			et := al.Type().Underlying().(*types.Pointer).Elem()
+	// the destination is a local variable or a field of one: only its own cells change (objects
+	// the callee allocates and links from it are new memory)
+	var al *ssa.Alloc
+	for x := pv; x != nil; {
+		switch y := x.(type) {
+		case *ssa.Alloc:
+			al = y
+			x = nil
+		case *ssa.FieldAddr:
+			x = y.X
+		default:
+			x = nil
+		}
+	}
+	if al != nil {
+		if av, ok := tr.vals[pv]; ok {
+			et := pv.Type().Underlying().(*types.Pointer).Elem()
 			v := tr.introduce("dec_"+al.Comment, et, st.reach, "written by "+site.Callee)
 			tr.store(st.heap, av.T, et, v.T)
 			tr.pendingDecoded = append(tr.pendingDecoded, pendingDec{av, et, site})
